@@ -7,7 +7,7 @@
      PrecisionOp::_evalPoly                 PrecisionOp.cpp:350 (training or not: same value)
      PrecisionOpCs::_build_Q                /repo/src/LinearOp/PrecisionOpCs.cpp:253 (Q = b0 I; Bi = S; Q += b_i Bi; Bi = Bi S; Q = diag(L) Q diag(L))
      ALinearOp::evalDirect / addToDest      /repo/src/LinearOp/ALinearOp.cpp:33 / 28
-     PrecisionOp::_addToDest                PrecisionOp.cpp:156   (writes over the destination)
+     PrecisionOp::_addToDest                PrecisionOp.cpp:156   (local evaluation, then added to the destination)
      PrecisionOpCs::_addToDest              PrecisionOpCs.cpp:132 (adds to the destination)
    Vectors are lists of n rationals, matrices lists of n rows (lib/LinAlgQ: mk/get, mmul, mmv keep fractions reduced).
    The operator S and the vector Lambda are inputs (harvested exactly from the library by the correspondence).
@@ -86,9 +86,9 @@ Definition build_Q (n : nat) (S : mat) (lam c : list Q) : mat :=
 (* PrecisionOpCs::_addToDest through evalDirect: Q . v *)
 Definition eval_direct_cs (n : nat) (S : mat) (lam c inv : list Q) : list Q := mmv n n (build_Q n S lam c) inv.
 
-(* ALinearOp::addToDest on the two forms.  PrecisionOp::_addToDest calls _addEvalPower, whose polynomial evaluation
-   ASSIGNS the destination (evalOp: outv[i] = c_d inv[i] ...): what the destination held is lost.
-   PrecisionOpCs::_addToDest is _Q->addToDest: destination + Q.inv *)
-Definition add_to_dest_free (n : nat) (S : mat) (lam c inv outv : list Q) : list Q := add_eval_power n S lam c inv.
+(* ALinearOp::addToDest on the two forms.  PrecisionOp::_addToDest evaluates _addEvalPower in a local vector and adds it
+   to the destination; PrecisionOpCs::_addToDest is _Q->addToDest: destination + Q.inv *)
+Definition add_to_dest_free (n : nat) (S : mat) (lam c inv outv : list Q) : list Q :=
+  vkr n (fun i => vget outv i + vget (add_eval_power n S lam c inv) i).
 Definition add_to_dest_cs (n : nat) (S : mat) (lam c inv outv : list Q) : list Q :=
   vkr n (fun i => vget outv i + vget (mmv n n (build_Q n S lam c) inv) i).
